@@ -36,6 +36,39 @@ def hexlen(tok):
     return (len(tok) - 1) // 2
 
 
+_SINGLE_MESSAGE_OPS = {"PARSE", "NOPANIC", "CONS", "FILT", "STABLE"}
+
+
+def ambiguous_framing(req):
+    """For the single-message requests `<OP> <storage> ... <bytes>`: is the buffer one for which the
+    property texts allow BOTH 'incomplete' and 'rejection'?  That is the case when the standard
+    header is complete, the length field is smaller than the headers the header-type byte
+    announces, AND the buffer ends before those headers: "the buffer ends before the headers" and
+    "the declared length is too small" both hold and no property ranks them."""
+    t = req.split()
+    if not t or t[0] not in _SINGLE_MESSAGE_OPS or len(t) < 3 or not t[-1].startswith("x"):
+        return False
+    try:
+        bs = bytes.fromhex(t[-1][1:])
+    except ValueError:
+        return False
+    if t[1] == "1":
+        k = bs.find(b"DLT\x01")
+        if k < 0 or len(bs) - k < 16:
+            return False
+        bs = bs[k + 16:]
+    if len(bs) < 4:
+        return False
+    h = bs[0]
+    std = 4 + 4 * ((h >> 2) & 1) + 4 * ((h >> 3) & 1) + 4 * ((h >> 4) & 1)
+    allh = std + 10 * (h & 1)
+    declared = (bs[2] << 8) | bs[3]
+    return len(bs) >= std and declared < allh and len(bs) < allh
+
+
+_VERDICT = re.compile(r"\bERR (INCOMPLETE( \S+)?|REJECT|HICKUP|UNRECOVERABLE)")
+
+
 class Cfg:
     rule = "every generated request line is a case; distinct by hash of the request; all count as non-trivial"
     observable = "the full answer line"
@@ -63,7 +96,10 @@ class Cfg:
         the domain the property quantifies over, only what the property still claims there (e.g.
         panic-freedom), so that a rewrite that changes behaviour the property leaves open is not
         reported"""
-        return self.project_corr(ans)
+        v = self.project_corr(ans)
+        if ambiguous_framing(req):
+            v = _VERDICT.sub("ERR INCOMPLETE-OR-REJECT", v)
+        return v
 
 
 class C01(Cfg):
@@ -118,6 +154,8 @@ class C02(Cfg):
             if wf != "1":
                 return True
             return ans.split(" ", 1)[0] == sp
+        if spec in ("INCOMPLETE", "REJECT") and ambiguous_framing(req):
+            return ans.startswith("ERR")
         if spec == "INCOMPLETE":
             return ans.startswith("ERR INCOMPLETE")
         if spec == "REJECT":
@@ -272,17 +310,23 @@ class C13(Cfg):
     def classify(self, req, ans, m=None):
         return "NVA:n=%s:%s" % (req.split()[2], ans.split(" ", 1)[0])
 
+    @staticmethod
+    def has_fixed_point(req):
+        t = req.split()
+        n = int(t[2])
+        return any(t[3 + 6 * k] in ("2", "4") for k in range(n))
+
     def corr_view(self, req, ans, spec=None):
         # fixed-point kinds are not among the signal types the property lists: only "no input causes
         # a panic" is claimed for them
-        t = req.split()
-        n = int(t[2])
-        kinds = [t[3 + 6 * k] for k in range(n)]
-        if any(k in ("2", "4") for k in kinds):
+        if self.has_fixed_point(req):
             return "PANIC" if ans.startswith("PANIC") else "no-panic"
         return self.project_corr(ans)
 
     def spec_ok(self, req, ans, spec):
+        if self.has_fixed_point(req):
+            # the Spec (like today's code) refuses fixed-point kinds; the property does not say so
+            return not ans.startswith("PANIC")
         return ans == spec
 
 
@@ -503,9 +547,27 @@ class C07(Cfg):
         kinds = sorted(set(i.split(" ")[0] + ("" if i.split(" ")[0] != "E" else ":" + i.split(" ")[1]) for i in items))
         return req.split(" ", 1)[0] + ":" + ",".join(kinds)
 
+    @staticmethod
+    def tail_norm(seq, spec):
+        """the delivered sequence without what the property leaves open at a truncated tail: where the
+        Spec marks the tail `T` (an incomplete last message or fewer bytes than a header), the
+        reader may end the stream at once or report one error first"""
+        if spec is None or not seq.endswith("EOS") or not spec.endswith("EOS"):
+            return seq
+        sb = spec.split(" ; ")[:-1]
+        body = seq.split(" ; ")[:-1]
+        if sb and sb[-1] == "T":
+            n = len(sb) - 1
+            if len(body) == n + 1 and (body[-1].startswith("E ") or body[-1] == "T"):
+                body = body[:-1]
+        return " ; ".join(body + ["EOS"])
+
+    def corr_view(self, req, ans, spec=None):
+        return self.tail_norm(self.project_corr(ans), spec)
+
     def spec_ok(self, req, ans, spec):
         # the property speaks of "an error": the two rejection variants are one class
-        return canon(ans) == canon(spec)
+        return self.tail_norm(canon(ans), spec) == self.tail_norm(canon(spec), spec)
 
 
 class C08(C07):
